@@ -349,3 +349,22 @@ func init() {
 			"later purge, or a POP3 QUIT with it marked explains it, and must be missing if such an operation was acknowledged after the delivery",
 	})
 }
+
+func init() {
+	register(&Prop{
+		ID:    "C09SR",
+		Level: "exploration",
+		Gen:   genC09S,
+		Run:   runC09S,
+		Config: func(cs Case) simrt.Config {
+			return simrt.Config{NoJumps: true, MaxSteps: 2000000, MaxSimTime: 12 * time.Hour}
+		},
+		RaceMode:     true,
+		QuickRuns:    800,
+		ThoroughRuns: 20000,
+		Rule: "race-mode companion of C09S: the same SMTP, REST and POP3 actors on shared mailboxes of both back-ends in a -race binary; a ThreadSanitizer report " +
+			"counts when, for both accesses, the innermost frame belonging to this module is Inbucket code (handlers, manager, stores, policy)",
+		Real: []string{"pkg/server/smtp", "pkg/server/pop3", "pkg/rest", "pkg/server/web", "pkg/message", "pkg/storage/mem", "pkg/storage/file", "pkg/extension", "pkg/msghub"},
+		Stub: []string{"TCP (simnet)", "HTTP connection (in-process)", "scheduler", "sync (edges published to ThreadSanitizer)", "disk (simfs)", "clock"},
+	})
+}
